@@ -109,20 +109,20 @@ func (kf *knownFindings) applyRegions(obls []*Obligation, prop string) {
 // ---------------------------------------------------------------- result
 
 type checkResult struct {
-	Property  string
-	Tier      string
-	Seed      int
-	Reports   []*fnReport
-	Obls      []*Obligation
-	Broken    bool
-	Known     []string
-	Violations []*Obligation
-	Vacuous   []*Obligation
-	Errors    []*Obligation
-	LoadS, SolveS, WallS float64
-	eng       *Engine
-	kf        *knownFindings
-	Lines     []string
+	Property                    string
+	Tier                        string
+	Seed                        int
+	Reports                     []*fnReport
+	Obls                        []*Obligation
+	Broken                      bool
+	Known                       []string
+	Violations                  []*Obligation
+	Vacuous                     []*Obligation
+	Errors                      []*Obligation
+	LoadS, SolveS, WallS        float64
+	eng                         *Engine
+	kf                          *knownFindings
+	Lines                       []string
 	MutantsKilled, MutantsTotal int
 }
 
@@ -283,6 +283,7 @@ func (r *checkResult) writeEvidence(o *checkOpts) error {
 		By   string  `json:"solver"`
 	}
 	var slowest []slow
+	secondPass := []string{}
 	var samples []interface{}
 	var knownObls []string
 	for _, ob := range r.Obls {
@@ -313,6 +314,9 @@ func (r *checkResult) writeEvidence(o *checkOpts) error {
 			}
 		}
 		slowest = append(slowest, slow{ob.Name, ob.TimeS, ob.Solver})
+		if ob.SecondPass && ob.Status == "discharged" {
+			secondPass = append(secondPass, ob.Name)
+		}
 	}
 	sort.Slice(slowest, func(i, j int) bool { return slowest[i].S > slowest[j].S })
 	if len(slowest) > 5 {
@@ -352,21 +356,22 @@ func (r *checkResult) writeEvidence(o *checkOpts) error {
 		viol = append(viol, v.Name)
 	}
 	cov := map[string]interface{}{
-		"obligations":              nProof,
-		"discharged":               nDis,
-		"checker_cmd":              fmt.Sprintf("/verif/bin/govc check --property %s --tier %s (per obligation: z3-new 2s, then race z3-new/cvc5/z3 with %ds timeout)", r.Property, r.Tier, o.timeout),
-		"trusted_base":             tb,
-		"functions_under_contract": fns,
-		"by_backend":               byBackend,
-		"solver_time_s":            round2(solverTime),
-		"slowest":                  slowest,
-		"vacuity":                  map[string]interface{}{"cover_and_presat_obligations": nCover, "satisfiable": nCoverOK, "must_fail_mutants_rejected": r.MutantsKilled, "must_fail_mutants_total": r.MutantsTotal},
-		"samples":                  samples,
-		"known_findings":           known,
+		"obligations":                 nProof,
+		"discharged":                  nDis,
+		"checker_cmd":                 fmt.Sprintf("/verif/bin/govc check --property %s --tier %s (per obligation: z3-new 2s, then race z3-new/cvc5/z3 with %ds timeout; obligations still undecided are re-run four at a time with %ds)", r.Property, r.Tier, o.timeout, 4*o.timeout),
+		"decided_only_in_second_pass": secondPass,
+		"trusted_base":                tb,
+		"functions_under_contract":    fns,
+		"by_backend":                  byBackend,
+		"solver_time_s":               round2(solverTime),
+		"slowest":                     slowest,
+		"vacuity":                     map[string]interface{}{"cover_and_presat_obligations": nCover, "satisfiable": nCoverOK, "must_fail_mutants_rejected": r.MutantsKilled, "must_fail_mutants_total": r.MutantsTotal},
+		"samples":                     samples,
+		"known_findings":              known,
 		"obligations_failing_as_recorded_open_findings": knownObls,
-		"failed_obligations":       viol,
-		"not_decided":              notDecided[r.Property],
-		"bounded_standins":         []string{},
+		"failed_obligations":                            viol,
+		"not_decided":                                   notDecided[r.Property],
+		"bounded_standins":                              []string{},
 	}
 	ev := map[string]interface{}{
 		"property_id": r.Property,
